@@ -180,7 +180,7 @@ func (m *Mutex) Lock() {
 	}
 	t := e.cur
 	t.mu = m
-	e.point(opLock, "", callerSite(2))
+	e.point(opLock, "", takeSite(t, 3))
 }
 
 func (m *Mutex) TryLock() bool {
@@ -220,7 +220,7 @@ func (m *RWMutex) Lock() {
 	}
 	t := e.cur
 	t.rw = m
-	e.point(opWLock, "", callerSite(2))
+	e.point(opWLock, "", takeSite(t, 3))
 }
 
 func (m *RWMutex) Unlock() {
@@ -237,7 +237,7 @@ func (m *RWMutex) RLock() {
 	}
 	t := e.cur
 	t.rw = m
-	e.point(opRLock, "", callerSite(2))
+	e.point(opRLock, "", takeSite(t, 3))
 }
 
 func (m *RWMutex) RUnlock() {
@@ -268,7 +268,7 @@ func (w *WaitGroup) Wait() {
 	}
 	t := e.cur
 	t.wg = w
-	e.point(opWait, "", callerSite(2))
+	e.point(opWait, "", takeSite(t, 3))
 }
 
 // Once replaces sync.Once (no scheduling point: callers are serialised anyway
@@ -293,3 +293,11 @@ func (o *Once) Do(f func()) {
 func Killed() any { return killedPanic{} }
 
 type killedPanic struct{}
+
+func takeSite(t *Thread, skip int) string {
+	if s := t.nextSite; s != "" {
+		t.nextSite = ""
+		return s
+	}
+	return callerSite(skip)
+}
